@@ -168,6 +168,12 @@ func prepInfo(name string, p []string) (int, map[string]interface{}) {
 	case "proclist":
 		return agent.COMMAND_PROC_LIST, map[string]interface{}{"FromProcessManager": arg(0)}
 	}
+	if key, ok := map[string]string{"config.verbose": "implant.verbose", "config.coffee.veh": "implant.coffee.veh", "config.coffee.threaded": "implant.coffee.threaded",
+		"config.sleep-technique": "implant.sleep-obf.technique", "config.memory.alloc": "memory.alloc", "config.memory.execute": "memory.execute",
+		"config.inject.technique": "inject.technique", "config.spawn64": "inject.spawn64", "config.spawn32": "inject.spawn32",
+		"config.killdate": "killdate", "config.workinghours": "workinghours"}[name]; ok {
+		return agent.COMMAND_CONFIG, map[string]interface{}{"ConfigKey": key, "ConfigVal": arg(0)}
+	}
 	return 0, nil
 }
 
@@ -231,6 +237,25 @@ func runC02(c *Ctx) {
 		{"transfer.stop", func() []string { return []string{hexids()} }}, {"transfer.resume", func() []string { return []string{hexids()} }},
 		{"transfer.remove", func() []string { return []string{hexids()} }}, {"exit.thread", func() []string { return nil }},
 		{"exit.process", func() []string { return nil }}, {"proclist", func() []string { return []string{gen.Pick(r, []string{"true", "false"})} }},
+		{"config.verbose", func() []string { return []string{gen.Pick(r, []string{"true", "false"})} }},
+		{"config.coffee.veh", func() []string { return []string{gen.Pick(r, []string{"true", "false"})} }},
+		{"config.coffee.threaded", func() []string { return []string{gen.Pick(r, []string{"true", "false"})} }},
+		{"config.sleep-technique", func() []string { return []string{ints()} }}, {"config.memory.alloc", func() []string { return []string{ints()} }},
+		{"config.memory.execute", func() []string { return []string{ints()} }}, {"config.inject.technique", func() []string { return []string{ints()} }},
+		{"config.spawn64", func() []string { return []string{texts()} }}, {"config.spawn32", func() []string { return []string{texts()} }},
+		{"config.killdate", func() []string { return []string{"0"} }},
+		{"config.workinghours", func() []string {
+			if r.Chance(1, 8) {
+				return []string{"0"}
+			}
+			sh, eh := r.Intn(24), 0
+			eh = sh + r.Intn(24-sh)
+			sm, em := gen.Pick(r, []int{0, 1, 29, 30, 31, 32, 33, 59}), gen.Pick(r, []int{0, 5, 31, 32, 45, 58, 59})
+			if eh == sh && em <= sm {
+				eh++
+			}
+			return []string{fmt.Sprintf("%d:%02d-%d:%02d", sh, sm, eh, em)}
+		}},
 	}
 	nprep := 3 * len(prepCases)
 	if c.Tier == "thorough" {
